@@ -1530,6 +1530,341 @@ theorem na_round_trip_between (t : Table) (h : ∀ p ∈ t, ∀ c ∈ p.2, c ≠
   have := mapCells_id (prepCell ∘ postCell) t (fun p hp c hc => prepCell_postCell c (h p hp c hc))
   simpa [mapCells, Function.comp_def, List.map_map] using this
 
+/-- **A list that validates can be parsed**: `Dispatcher(...)` (parse_operations, every `__init__`) does not fail
+on it — validation comes first, and only then are operation objects built. -/
+theorem validated_parses (raws : List JVal) (h : validateParams raws = []) : ∃ ops, parseOps raws = some ops := by
+  unfold validateParams at h
+  simp only at h
+  split at h
+  · next he => rw [h] at he; simp at he
+  · cases hp : parseOps raws with
+    | none => rw [hp] at h; simp at h
+    | some ops => exact ⟨ops, rfl⟩
+
+/-- the validator stops after the JSON-schema pass: `validate_input_data` is only consulted for lists without
+schema errors, and then for every operation in list order -/
+theorem validate_order (raws : List JVal) :
+    (schemaErrors raws ≠ [] → validateParams raws = schemaErrors raws)
+    ∧ (schemaErrors raws = [] → ∀ ops, parseOps raws = some ops → validateParams raws = errsFrom inputDataErrs 0 ops) := by
+  constructor
+  · intro h
+    unfold validateParams
+    have : (schemaErrors raws).isEmpty = false := by
+      cases hs : schemaErrors raws with
+      | nil => exact absurd hs h
+      | cons _ _ => rfl
+    simp [this]
+  · intro h ops hp
+    unfold validateParams
+    simp [h, hp]
+
+/-! ### metamorphic laws -/
+
+/-- remove_columns (ignore_missing) twice = once -/
+theorem removeColumns_idempotent (cs : List Str) (t t1 : Table) (h : removeColumnsImpl cs true t = .ok t1) :
+    removeColumnsImpl cs true t1 = .ok t1 := by
+  simp only [removeColumnsImpl, Bool.not_true, Bool.false_and, Bool.false_eq_true, if_false, Except.ok.injEq] at h ⊢
+  subst h
+  simp [List.filter_filter]
+
+theorem length_applyMask_le {α} : ∀ (m : List Bool) (d : List α), (applyMask m d).length ≤ m.count true
+  | [], d => by simp [applyMask]
+  | b :: m, [] => by simp [applyMask_nil_right]
+  | true :: m, x :: d => by
+    have := length_applyMask_le m d
+    simp only [applyMask, List.length_cons, List.count_cons_self]
+    omega
+  | false :: m, x :: d => by
+    have := length_applyMask_le m d
+    simpa [applyMask] using this
+
+theorem length_applyMask_self : ∀ (m : List Bool) (c : List Cell), m.length = c.length →
+    (applyMask m c).length = m.count true
+  | [], [], _ => rfl
+  | true :: m, x :: c, h => by
+    have := length_applyMask_self m c (by simpa using h)
+    simp [applyMask, this]
+  | false :: m, x :: c, h => by
+    have := length_applyMask_self m c (by simpa using h)
+    simpa [applyMask] using this
+  | [], _ :: _, h => by simp at h
+  | _ :: _, [], h => by simp at h
+
+theorem applyMask_all_true {α} : ∀ (m : List Bool) (d : List α), (∀ b ∈ m, b = true) → d.length ≤ m.length →
+    applyMask m d = d
+  | _, [], _, _ => applyMask_nil_right _
+  | [], x :: d, _, h => by simp at h
+  | b :: m, x :: d, hall, h => by
+    have hb : b = true := hall b (by simp)
+    subst hb
+    simp only [applyMask, List.cons.injEq, true_and]
+    exact applyMask_all_true m d (fun b hb => hall b (by simp [hb])) (by simpa using h)
+
+/-- what survives the filter passes it -/
+theorem applyMask_map_self (p : Cell → Bool) : ∀ c : List Cell, ∀ b ∈ (applyMask (c.map p) c).map p, b = true
+  | [], b, hb => by simp [applyMask] at hb
+  | x :: c, b, hb => by
+    cases hp : p x
+    · simp only [List.map_cons, hp, applyMask] at hb
+      exact applyMask_map_self p c b hb
+    · simp only [List.map_cons, hp, applyMask, List.mem_cons] at hb
+      rcases hb with rfl | hb
+      · rfl
+      · exact applyMask_map_self p c b hb
+
+/-- remove_rows twice = once (documented meaning; `removeRows_refines` carries it to the code) -/
+theorem removeRows_idempotent (col : Str) (vals : List Val) (t t1 : Table) (h : removeRowsSpec col vals t = .ok t1) :
+    removeRowsSpec col vals t1 = .ok t1 := by
+  unfold removeRowsSpec at h ⊢
+  cases hl : t.lookup col with
+  | none =>
+    rw [hl] at h
+    simp only [Except.ok.injEq] at h
+    subst h
+    rw [hl]
+  | some c =>
+    rw [hl] at h
+    simp only [Except.ok.injEq] at h
+    subst h
+    rw [lookup_filterRows, hl]
+    simp only [Option.map_some, Except.ok.injEq]
+    generalize hp : (fun x => vals.all fun v => !cellEq x v) = p
+    unfold filterRows
+    rw [List.map_map]
+    have hid : ∀ q ∈ t, ((fun q : Str × Column => (q.1, applyMask ((applyMask (c.map p) c).map p) q.2)) ∘
+        (fun q : Str × Column => (q.1, applyMask (c.map p) q.2))) q = (q.1, applyMask (c.map p) q.2) := by
+      intro q _
+      simp only [Function.comp, Prod.mk.injEq, true_and]
+      apply applyMask_all_true
+      · exact applyMask_map_self p c
+      · rw [List.length_map, length_applyMask_self (c.map p) c (by simp)]
+        exact length_applyMask_le (c.map p) q.2
+    exact List.map_congr_left hid
+
+theorem header_selectCols : ∀ (names : List Str) (t r : Table), selectCols names t = .ok r → header r = names
+  | [], t, r, h => by simp [selectCols] at h; subst h; rfl
+  | n :: ns, t, r, h => by
+    unfold selectCols at h
+    cases hl : t.lookup n with
+    | none => rw [hl] at h; simp at h
+    | some c =>
+      rw [hl] at h
+      cases hs : selectCols ns t with
+      | error e => rw [hs] at h; simp at h
+      | ok r' =>
+        rw [hs] at h
+        simp only [Except.ok.injEq] at h
+        subst h
+        have := header_selectCols ns t r' hs
+        simp only [header] at this ⊢
+        simp [this]
+
+theorem selectCols_cons_not_mem (n : Str) (c : Column) (t : Table) : ∀ names : List Str, n ∉ names →
+    selectCols names ((n, c) :: t) = selectCols names t
+  | [], _ => rfl
+  | m :: ms, h => by
+    have hm : (m == n) = false := by
+      have : m ≠ n := fun e => h (by simp [e])
+      simpa using this
+    have ih := selectCols_cons_not_mem n c t ms (fun hh => h (by simp [hh]))
+    simp only [selectCols, List.lookup, hm, ih]
+
+theorem selectCols_header_self : ∀ t : Table, (header t).Nodup → selectCols (header t) t = .ok t
+  | [], _ => rfl
+  | (n, c) :: t, h => by
+    have hn : n ∉ header t := by
+      simp only [header, List.map_cons, List.nodup_cons] at h; exact h.1
+    have ht : (header t).Nodup := by
+      simp only [header, List.map_cons, List.nodup_cons] at h; exact h.2
+    have ih := selectCols_header_self t ht
+    have hc := selectCols_cons_not_mem n c t (header t) hn
+    simp only [header] at hc ih
+    simp only [header, List.map_cons, selectCols, List.lookup, BEq.rfl, hc, ih]
+
+theorem any_congr' {α} (p q : α → Bool) : ∀ l : List α, (∀ a ∈ l, p a = q a) → l.any p = l.any q
+  | [], _ => rfl
+  | x :: l, h => by
+    simp only [List.any_cons, h x (by simp), any_congr' p q l (fun a ha => h a (by simp [ha]))]
+
+/-- reorder_columns twice = once (documented meaning; `reorder_refines` carries it to the code) -/
+theorem reorder_idempotent (o : List Str) (i k : Bool) (t t1 : Table) (ho : o.Nodup) (ht : (header t).Nodup)
+    (h : reorderSpec o i k t = .ok t1) : reorderSpec o i k t1 = .ok t1 := by
+  unfold reorderSpec at h
+  split at h
+  · cases h
+  · next hcond =>
+    have hh1 := header_selectCols _ t t1 h
+    have hF1 : ∀ e ∈ o, (header t1).contains e = (header t).contains e := by
+      intro e he
+      rw [hh1]
+      have heo : o.contains e = true := by simpa using he
+      cases hc : (header t).contains e with
+      | true =>
+        have hmem : e ∈ header t := by simpa using hc
+        simp [he, hmem]
+      | false =>
+        have hnm : e ∉ header t := by simpa using hc
+        simp [he, hnm]
+    have hany : (o.any fun e => !(header t1).contains e) = (o.any fun e => !(header t).contains e) :=
+      any_congr' _ _ o (fun e he => by rw [hF1 e he])
+    have hlisted : (o.filter fun e => (header t1).contains e) = o.filter fun e => (header t).contains e :=
+      List.filter_congr (fun e he => hF1 e he)
+    have hothers : ((header t1).filter fun e => !o.contains e)
+        = (if k = true then (header t).filter (fun e => !o.contains e) else []) := by
+      rw [hh1, List.filter_append]
+      have e1 : (o.filter fun e => (header t).contains e).filter (fun e => !o.contains e) = [] := by
+        rw [List.filter_eq_nil_iff]
+        intro e he
+        have : e ∈ o := (List.mem_filter.1 he).1
+        simp [this]
+      rw [e1]
+      cases k
+      · simp
+      · simp [List.filter_filter]
+    have hnd : (header t1).Nodup := by
+      rw [hh1, List.nodup_append]
+      refine ⟨ho.filter _, ?_, ?_⟩
+      · split
+        · exact ht.filter _
+        · exact List.nodup_nil
+      · intro a ha b hb hab
+        subst hab
+        have hao : a ∈ o := (List.mem_filter.1 ha).1
+        split at hb
+        · have := (List.mem_filter.1 hb).2
+          simp [hao] at this
+        · cases hb
+    unfold reorderSpec
+    rw [hany]
+    simp only [hcond, if_false, hlisted]
+    have hsel : selectCols (header t1) t1 = .ok t1 := selectCols_header_self t1 hnd
+    cases k
+    · simp only [Bool.false_eq_true, if_false, List.append_nil] at hh1 ⊢
+      rw [← hh1]; exact hsel
+    · simp only [if_true] at hh1 hothers ⊢
+      rw [hothers, ← hh1]; exact hsel
+
+/-- a rearrangement of the rows applied to every column (a permutation, a selection, …) -/
+def mapCols (f : Column → Column) (t : Table) : Table := t.map fun p => (p.1, f p.2)
+
+theorem header_mapCols (f : Column → Column) (t : Table) : header (mapCols f t) = header t := by
+  simp [header, mapCols, List.map_map, Function.comp_def]
+
+theorem lookup_mapCols (f : Column → Column) (t : Table) (n : Str) :
+    (mapCols f t).lookup n = (t.lookup n).map f := by
+  induction t with
+  | nil => rfl
+  | cons p t ih =>
+    obtain ⟨m, c⟩ := p
+    simp only [mapCols, List.map_cons, List.lookup] at ih ⊢
+    split <;> simp_all [mapCols]
+
+theorem selectCols_mapCols (f : Column → Column) (t : Table) : ∀ names : List Str,
+    selectCols names (mapCols f t) = (match selectCols names t with | .ok r => .ok (mapCols f r) | .error e => .error e)
+  | [] => rfl
+  | n :: ns => by
+    simp only [selectCols, lookup_mapCols, selectCols_mapCols f t ns]
+    cases t.lookup n <;> cases selectCols ns t <;> simp [mapCols]
+
+/-- **The column operations do not look at the rows**: remove_columns, rename_columns and reorder_columns commute
+with every rearrangement of the rows (so in particular with every permutation). -/
+theorem column_ops_commute_rows (f : Column → Column) (o : Op) (t : Table)
+    (ho : match o with | .removeColumns .. => True | .renameColumns .. => True | .reorderColumns .. => True | _ => False) :
+    opSpec o (mapCols f t) = (match opSpec o t with | .ok r => .ok (mapCols f r) | .error e => .error e) := by
+  cases o with
+  | removeColumns cs i =>
+    simp only [opSpec, removeColumnsSpec, removeColumnsImpl, header_mapCols]
+    split
+    · rfl
+    · simp [mapCols, List.filter_map, Function.comp_def]
+  | renameColumns m i =>
+    simp only [opSpec, renameColumnsSpec, renameColumnsImpl, header_mapCols]
+    split
+    · rfl
+    · simp [mapCols, List.map_map, Function.comp_def]
+  | reorderColumns o i k =>
+    simp only [opSpec, reorderSpec, header_mapCols]
+    split
+    · rfl
+    · exact selectCols_mapCols f t _
+  | _ => exact absurd ho (by simp)
+
+theorem setCol_mapCols (f : Column → Column) (t : Table) (n : Str) (c : Column) :
+    setCol (mapCols f t) n (f c) = mapCols f (setCol t n c) := by
+  unfold setCol
+  rw [header_mapCols]
+  split
+  · simp only [mapCols, List.map_map]
+    apply List.map_congr_left
+    intro p _
+    simp only [Function.comp]
+    split <;> rfl
+  · simp [mapCols]
+
+/-- **factor_column with listed values is row-local**: it commutes with every rearrangement `f` of the rows that
+is natural in the cells (`f (c.map g) = (f c).map g`: permutations, selections, repetitions of rows) -/
+theorem factor_commutes_rows (f : Column → Column) (hf : ∀ (g : Cell → Cell) (c : Column), f (c.map g) = (f c).map g)
+    (col : Str) (vals : List Str) (names : Option (List Str)) (t : Table) (hv : vals ≠ []) :
+    factorSpec col (some vals) names (mapCols f t)
+      = (match factorSpec col (some vals) names t with | .ok r => .ok (mapCols f r) | .error e => .error e) := by
+  unfold factorSpec
+  rw [lookup_mapCols]
+  cases hl : t.lookup col with
+  | none => rfl
+  | some c0 =>
+    have hfv : ∀ c : Column, factorValues ((some vals).getD []) c = vals := by
+      intro c
+      cases vals with
+      | nil => exact absurd rfl hv
+      | cons v vs => simp [factorValues]
+    simp only [Option.map_some, hfv]
+    split
+    · rfl
+    · simp only [Except.ok.injEq]
+      generalize (vals.zip (factorNames col (names.getD []) vals)) = pairs
+      clear hl
+      induction pairs generalizing t with
+      | nil => rfl
+      | cons p ps ih =>
+        simp only [List.foldl_cons]
+        have hfc : factorCol (f c0) p.1 = f (factorCol c0 p.1) := by
+          unfold factorCol; rw [hf]
+        rw [hfc, setCol_mapCols]
+        exact ih (setCol t p.2 (factorCol c0 p.1))
+
+/-- **factor_column leaves every other column alone** (frame): a column that is not one of the factor names is
+in the result exactly as it was in the input -/
+theorem factor_frame (col : Str) (values names : Option (List Str)) (t t1 : Table)
+    (h : factorSpec col values names t = .ok t1) (n : Str)
+    (hn : ∀ c0, t.lookup col = some c0 → n ∉ factorNames col (names.getD []) (factorValues (values.getD []) c0)) :
+    t1.lookup n = t.lookup n := by
+  unfold factorSpec at h
+  cases hl : t.lookup col with
+  | none => rw [hl] at h; cases h
+  | some c0 =>
+    rw [hl] at h
+    simp only at h
+    split at h
+    · cases h
+    · simp only [Except.ok.injEq] at h
+      subst h
+      have hn' := hn c0 hl
+      generalize factorValues (values.getD []) c0 = fv at hn' ⊢
+      generalize factorNames col (names.getD []) fv = fn at hn' ⊢
+      have : ∀ (pairs : List (Str × Str)) (t' : Table), (∀ p ∈ pairs, p.2 ≠ n) →
+          (pairs.foldl (fun t'' vn => setCol t'' vn.2 (factorCol c0 vn.1)) t').lookup n = t'.lookup n := by
+        intro pairs
+        induction pairs with
+        | nil => intro t' _; rfl
+        | cons p ps ih =>
+          intro t' hp
+          rw [List.foldl_cons, ih _ (fun q hq => hp q (by simp [hq])), lookup_setCol_ne _ _ _ _ (hp p (by simp))]
+      apply this
+      intro p hp hpn
+      apply hn'
+      rw [← hpn]
+      exact (List.of_mem_zip hp).2
+
 /-! ### the unrepaired reorder_columns (DESIGN.md section 8 #12) — regression counter-examples -/
 
 instance {ε α} [DecidableEq ε] [DecidableEq α] : DecidableEq (Except ε α)
